@@ -155,9 +155,58 @@ func PongCut(seed int64, iters int) error {
 	return nil
 }
 
+// SubCut drives the schedule "a subscription's response is being processed by the frame executor when
+// the connection is lost": the executor is held right after it has built the caller's channel (and
+// before it registers the sink), the connection is cut, the sweep fails the pending call and the
+// caller returns — reading the proxy's return slot that the executor has just written.  (Used by the
+// race-detector run: nothing orders that write and that read unless the library does.)
+func SubCut(seed int64, iters int) error {
+	for i := 0; i < iters; i++ {
+		e, err := scen.NewEnv(seed+int64(i), 1)
+		if err != nil {
+			return err
+		}
+		ctx, cancel := context.WithCancel(context.Background())
+		cl, closer, err := e.Client(ctx, jsonrpc.WithPingInterval(0), jsonrpc.WithTimeout(0),
+			jsonrpc.WithReconnectBackoff(2*time.Millisecond, 10*time.Millisecond))
+		if err != nil {
+			cancel()
+			e.Close()
+			return err
+		}
+		g := e.RT.Gate("fe.resp.prechan", 1)
+		done := make(chan struct{})
+		go func() {
+			defer close(done)
+			ch, err := cl.Sub(ctx, 5000+i, 3)
+			if err == nil && ch != nil {
+				for range ch {
+				}
+			}
+		}()
+		if g.WaitReached(2 * time.Second) {
+			e.PX.Cut(0, "rst")
+			select {
+			case <-done: // the sweep failed the call while the executor is still inside handleResponse
+			case <-time.After(500 * time.Millisecond):
+			}
+			g.Release()
+		}
+		scen.WithTimeout(2*time.Second, func() { <-done })
+		e.RT.ReleaseAll()
+		scen.WithTimeout(3*time.Second, closer)
+		cancel()
+		e.Close()
+	}
+	return nil
+}
+
 func Run(d *fw.Driver, res *fw.Result, seed int64, thorough bool) error {
 	if os.Getenv("VERIF_NOTRACE") == "1" {
 		if err := PongCut(seed, 25); err != nil {
+			return err
+		}
+		if err := SubCut(seed, 15); err != nil {
 			return err
 		}
 	}
